@@ -1,5 +1,6 @@
 """C16 -- verdict bookkeeping is faithful and monotone."""
 import collections
+import os
 import hashlib
 import itertools
 import json
@@ -400,7 +401,129 @@ def search(family, names, variant, max_states):
   return r
 
 
-CASES = {'history': case_history}
+# ---- TLA+ lattice model of TestInfo, TLC state graph, every edge replayed ------------------
+
+_SEV = [0, 2, 4]  # severity index -> SeverityType (UNKNOWN, MEDIUM, CRITICAL)
+_FAC = [3, 5, 7]
+
+
+def _ti_from_state(w, st):
+  ti = w.pb.TestInfo()
+  ti.weak = bool(st['weak'])
+  ti.paranoid_lib_version = {0: '', 1: w.version.__version__, 2: 'older-0.1'}[st['ver']]
+  for name, e in (('CheckA', st['eA']), ('CheckB', st['eB'])):
+    if e:
+      t = ti.test_results.add()
+      t.test_name, t.result, t.severity = name, bool((e - 1) // 3), _SEV[(e - 1) % 3]
+  fs = [f for f, on in zip(_FAC, (st['f1'], st['f2'], st['f3'])) if on]
+  if fs:
+    a = ti.attached_info.add()
+    a.info_name = 'N_FACTORS'
+    a.value = str({format(f, 'x') for f in fs})
+  return ti
+
+
+def _state_from_ti(w, ti):
+  out = {'weak': int(ti.weak), 'eA': 0, 'eB': 0}
+  v = ti.paranoid_lib_version
+  out['ver'] = 0 if v == '' else (1 if v == w.version.__version__ else (2 if v == 'older-0.1'
+                                                                         else -1))
+  seen = set()
+  for t in ti.test_results:
+    if t.test_name in seen or t.test_name not in ('CheckA', 'CheckB') or t.severity not in _SEV:
+      return None
+    seen.add(t.test_name)
+    out['eA' if t.test_name == 'CheckA' else 'eB'] = 1 + 3 * int(t.result) + _SEV.index(
+        t.severity)
+  recs = [a for a in ti.attached_info]
+  if len(recs) > 1 or any(a.info_name != 'N_FACTORS' for a in recs):
+    return None
+  fs = art.factors(ti) or frozenset()
+  if not fs <= set(_FAC):
+    return None
+  out['f1'], out['f2'], out['f3'] = (int(f in fs) for f in _FAC)
+  return out
+
+
+def _apply_action(w, ti, last):
+  if 1 <= last <= 12:
+    name = 'CheckA' if last <= 6 else 'CheckB'
+    k = (last - 1) % 6
+    e = w.pb.TestResultsEntry(test_name=name, result=bool(k // 3), severity=_SEV[k % 3])
+    w.util.SetTestResult(ti, e)
+  else:
+    k = last - 12
+    fs = [f for f, on in zip(_FAC, (k // 4, (k // 2) % 2, k % 2)) if on]
+    w.util.AttachFactors(ti, 'N_FACTORS', fs)
+
+
+def case_tlc_edge(src, last, dst):
+  w = world.load()
+  ti = _ti_from_state(w, src)
+  st, _ = guarded(_apply_action, w, ti, last)
+  if st == 'exc':
+    return ['action %d raised on model state %r' % (last, src)]
+  got = _state_from_ti(w, ti)
+  want = {k: v for k, v in dst.items() if k != 'last'}
+  if got != want:
+    return ['the implementation leaves the lattice model: from %r the action #%d (%s) gives %r, '
+            'the model gives %r' % (src, last, 'SetTestResult' if last <= 12 else 'AttachFactors',
+                                    got, want)]
+  return []
+
+
+def tlc_crosscheck():
+  import re
+  import shutil
+  import subprocess
+  import tempfile
+  r = Result()
+  if not shutil.which('tlc'):
+    r.notes.append('tlc not on PATH: TLA+ cross-check skipped')
+    r.ev('tlc/skipped', False)
+    return r
+  tla_dir = os.path.join(world.VERIF, 'tla')
+  tmp = tempfile.mkdtemp(prefix='tlc-', dir=world.BUILD if os.path.isdir(world.BUILD) else None)
+  try:
+    dot = os.path.join(tmp, 'TestInfo.dot')
+    p = subprocess.run(['tlc', '-workers', '1', '-noGenerateSpecTE', '-metadir',
+                        os.path.join(tmp, 'meta'), '-dump', 'dot,actionlabels', dot,
+                        'TestInfo'], cwd=tla_dir, capture_output=True, text=True, timeout=600)
+    if 'No error has been found' not in p.stdout or not os.path.exists(dot):
+      r.notes.append('TLC did not complete cleanly: %s' % p.stdout[-300:])
+      r.ev('tlc/failed', False)
+      return r
+    nodes, edges = {}, []
+    for line in open(dot):
+      m = re.match(r'^(-?\d+) \[label="(.*?)"', line)
+      if m:
+        nodes[m.group(1)] = {k: int(v) for k, v in re.findall(r'(\w+) = (-?\d+)', m.group(2))}
+        continue
+      m = re.match(r'^(-?\d+) -> (-?\d+)', line)
+      if m:
+        edges.append((m.group(1), m.group(2)))
+    for a, b in edges:
+      src = {k: v for k, v in nodes[a].items() if k != 'last'}
+      dst = nodes[b]
+      bad = case_tlc_edge(src, dst['last'], dst)
+      r.transitions += 1
+      r.ev('tlc-edge/%s' % ('set' if dst['last'] <= 12 else 'attach'), src != {
+          k: v for k, v in dst.items() if k != 'last'})
+      for x in bad:
+        r.violation(x, {'fn': 'tlc_edge', 'args': {'src': src, 'last': dst['last'], 'dst': dst}})
+      if len(r.violations) > 5:
+        break
+    r.states += len(nodes)
+    r.extra['tlc_states'] = len(nodes)
+    r.extra['tlc_edges_replayed_against_impl'] = len(edges)
+    r.sample({'tla_model': 'tla/TestInfo.tla', 'tlc_states': len(nodes), 'edges': len(edges),
+              'conformance': 'every edge replayed on util.SetTestResult / AttachFactors'})
+  finally:
+    shutil.rmtree(tmp, ignore_errors=True)
+  return r
+
+
+CASES = {'history': case_history, 'tlc_edge': case_tlc_edge}
 
 
 def plan(tier, seed):
@@ -448,6 +571,10 @@ def plan(tier, seed):
                     bound='7 signatures (healthy, 3 biased of one issuer, healthy of the same '
                     'issuer, weak issuer key, unknown curve) in 6 batches x 5 operations incl. '
                     'CheckAllECDSASigs', weight=2e9))
+  T.append(Task('tlc-model-conformance', 'tlc_crosscheck', {},
+                bound='TLA+ lattice model of TestInfo (tla/TestInfo.tla): TLC to fixpoint, every '
+                'edge of the state graph replayed against util.SetTestResult / AttachFactors',
+                weight=5e8))
   return T
 
 
